@@ -188,6 +188,12 @@ def run(ctx):
         combos.append(("sig", suite, kk[-1], ms[4], "none"))
         if suite != "pop" or not q:
             combos.append(("sig", suite, kk[0], ms[5], "none"))
+    # keys / signatures whose encodings carry a coordinate with the leading byte of p
+    for lbl, k in BL.leading_byte_keys().items():
+        suite = "pop" if ("pop" in lbl or lbl.startswith("pk")) else "basic"
+        combos.append(("sig", suite, k, ms[3], "none"))
+        if lbl.startswith("pk"):
+            combos.append(("pop", "pop", k, b"", "none"))
     combos.append(("pop", "pop", ks[2], b"", "byte" if q else "all"))
     if not q:
         combos += [("pop", "pop", ks[0], b"", "all"), ("pop", "pop", ks[1], b"", "all")]
